@@ -169,7 +169,8 @@ outer:
 		if len(parts) < 2 {
 			continue
 		}
-		if parts[0] != "script-src" {
+		// Directive names are case-insensitive.
+		if !strings.EqualFold(parts[0], "script-src") {
 			continue
 		}
 		for _, source := range parts[1:] {
